@@ -6,8 +6,8 @@ from checks import callcommon, ctxcommon
 from framework import Case
 
 PROP = "C02"
-GENERATED = ['OpSemantics', 'DtypeTables', 'Core', 'Wrapper', 'SrcExpand', 'SrcHints', 'SrcDecorate', 'HintLoop', 'Decorate', 'ShapeLoop', 'SrcShape', 'Resolve']  # generated files this check's tie depends on
-LEAN_MODULES = ["Properties.C02", "Properties.Core", "Properties.CoreWrap", "Properties.Prov.Expand", "Properties.Prov.Hints", "Properties.Prov.Decorate", "Properties.CoreHints", "Properties.CoreDecorate", "Properties.CoreShape", "Properties.Prov.Shape", "Properties.CoreResolve"]
+GENERATED = ['OpSemantics', 'DtypeTables', 'Core', 'Wrapper', 'SrcExpand', 'SrcHints', 'SrcDecorate', 'HintLoop', 'Decorate', 'ShapeLoop', 'SrcShape', 'Resolve', 'SrcSurface', 'SrcConstants']  # generated files this check's tie depends on
+LEAN_MODULES = ["Properties.C02", "Properties.Core", "Properties.CoreWrap", "Properties.Prov.Expand", "Properties.Prov.Hints", "Properties.Prov.Decorate", "Properties.CoreHints", "Properties.CoreDecorate", "Properties.CoreShape", "Properties.Prov.Shape", "Properties.CoreResolve", "Properties.Prov.Surface", "Properties.Prov.Constants"]
 RULE = (
     "seeded contexts that are conforming by construction (0 perturbations in 3 of 4 cases), ranks 0-5, zero-sized axes, zero-length groups, "
     "tuples of length 1-3, optionals, providers; each presented (a) directly to DLTypeContext and (b) as a call of a generated dltyped "
@@ -50,6 +50,17 @@ def cases(tier, rng, run):
                 for items in ([f"P|x|S|{spec}|{v}", f"R|{tup}"], [f"P|t|{tup}", f"R|S|{spec}|{v}"], [f"P|x|S|{spec}|{v}", f"P|t|{tup}"], [f"P|t|{tup}", f"P|x|S|{spec}|{v}"],
                               [f"P|t|{tup}", f"R|{tup}"], [f"P|x|S|{spec}|{v}", f"P|t|{tup}", f"R|S|{spec}|{v}"]):
                     out.append(Case("\t".join(["CALL", f"func:{style}", "-", "", *items, "AL"]), "alias"))
+    # a name introduced by a NAMED LITERAL in an annotation made only of literals / anonymous entries (a kernel size, a fixed channel
+    # count) is a binding like any other: later annotations, tuple elements and the return annotation may refer to it
+    fam = [("kh=3 kw=3", "3.3", "n kh*kw", "5.9"), ("... three=3 8", "2.3.8", "three n", "3.4"), ("2 n=3", "2.3", "n+1 2", "4.2"), ("k=4", "4", "k k", "4.4"),
+           ("_ c=2", "7.2", "c*c", "4"), ("*_ w=5", "5", "w-1 w", "4.5"), ("a=1 b=2 c=3", "1.2.3", "a+b+c a*b*c", "6.6")]
+    for lit, lv, ref, rv in fam:
+        out.append(Case(f"CTX\t\tA|x|FloatTensor,0,{lit}|T,0:float32,{lv}\tA|y|FloatTensor,0,{ref}|T,0:float32,{rv}", "named-literal"))
+        for style in ("pos", "kw"):
+            px, py = f"P|x|S|FloatTensor,0,{lit}|T,0:float32,{lv}", f"P|y|S|FloatTensor,0,{ref}|T,0:float32,{rv}"
+            out.append(Case("\t".join(["CALL", f"func:{style}", "-", "", px, py]), "named-literal"))
+            out.append(Case("\t".join(["CALL", f"func:{style}", "-", "", px, f"R|S|FloatTensor,0,{ref}|T,0:float32,{rv}"]), "named-literal"))
+            out.append(Case("\t".join(["CALL", f"func:{style}", "-", "", f"P|t|T|FloatTensor,0,{lit};FloatTensor,0,{ref}|U:T,0:float32,{lv};T,0:float32,{rv}"]), "named-literal"))
     return out
 
 
